@@ -56,7 +56,7 @@ func (e *Emitter) Script(o *Obligation) string {
 			}
 			if used[f.SMT] || need[f.SMT] {
 				need[f.SMT] = true
-				for s := range symbolsOf(f.Decl) {
+				for s := range symbolsOf(f.Decl, f.Def) {
 					used[s] = true
 				}
 			}
@@ -64,6 +64,7 @@ func (e *Emitter) Script(o *Obligation) string {
 		for _, f := range e.reg.order {
 			if need[f.SMT] {
 				b.WriteString(f.Decl)
+				b.WriteString(f.Def)
 			}
 		}
 		b.WriteString(o.Raw)
@@ -101,7 +102,7 @@ func (e *Emitter) Script(o *Obligation) string {
 	b.WriteString(e.ss.StrDecls())
 	b.WriteString(sd)
 	// spec functions actually referenced (defines may reference earlier ones); axioms are always emitted
-	for _, a := range e.reg.axioms {
+	for _, a := range append(append([]string{}, e.reg.axioms...), e.reg.lemmaAxioms...) {
 		for s := range symbolsOf(a) {
 			used[s] = true
 		}
@@ -111,7 +112,13 @@ func (e *Emitter) Script(o *Obligation) string {
 		f := e.reg.order[i]
 		if used[f.SMT] || need[f.SMT] {
 			need[f.SMT] = true
-			for s := range symbolsOf(f.Decl) {
+			def := ""
+			for _, r := range o.Reveal {
+				if r == f.Name {
+					def = f.Def
+				}
+			}
+			for s := range symbolsOf(f.Decl, def) {
 				used[s] = true
 			}
 		}
@@ -119,9 +126,19 @@ func (e *Emitter) Script(o *Obligation) string {
 	for _, f := range e.reg.order {
 		if need[f.SMT] {
 			b.WriteString(f.Decl)
+			if f.Def != "" {
+				for _, r := range o.Reveal {
+					if r == f.Name {
+						b.WriteString(f.Def)
+					}
+				}
+			}
 		}
 	}
 	for _, a := range e.reg.axioms {
+		b.WriteString(a + "\n")
+	}
+	for _, a := range e.reg.lemmaAxioms {
 		b.WriteString(a + "\n")
 	}
 	for _, d := range keep {
